@@ -9,6 +9,7 @@
 #include <ompl/base/objectives/PathLengthOptimizationObjective.h>
 #include <ompl/base/samplers/informed/PathLengthDirectInfSampler.h>
 #include <ompl/base/samplers/informed/RejectionInfSampler.h>
+#include <ompl/base/samplers/informed/OrderedInfSampler.h>
 #include <ompl/base/spaces/RealVectorStateSpace.h>
 #include <ompl/base/spaces/SE2StateSpace.h>
 #include <ompl/base/spaces/SE3StateSpace.h>
@@ -342,6 +343,8 @@ static std::vector<vc::Point> runSampler(const SCfg &c, const std::map<size_t, i
     std::shared_ptr<ob::InformedSampler> smp;
     if (c.sampler == "direct")
         smp = std::make_shared<ob::PathLengthDirectInfSampler>(P.pdef, 100);
+    else if (c.sampler == "ordered")
+        smp = std::make_shared<ob::OrderedInfSampler>(std::make_shared<ob::PathLengthDirectInfSampler>(P.pdef, 100), 3);
     else
         smp = std::make_shared<ob::RejectionInfSampler>(P.pdef, 100);
     double C = c.factor * P.dmin, Cmin = 0.5 * (P.dmin + C);
@@ -349,7 +352,26 @@ static std::vector<vc::Point> runSampler(const SCfg &c, const std::map<size_t, i
     bool ok = false;
     try
     {
-        ok = c.twoSided ? smp->sampleUniform(s, ob::Cost(Cmin), ob::Cost(C)) : smp->sampleUniform(s, ob::Cost(C));
+        if (c.sampler == "ordered")
+        {
+            // the ordered sampler hands out a batch of 3 in order of heuristic cost; the bound shrinks between the calls (as it does in
+            // a planner that keeps finding better solutions), so kept samples have to be re-examined: every call is checked against ITS bound
+            for (int call = 0; call < 4; ++call)
+            {
+                double Ck = P.dmin + (C - P.dmin) * (1.0 - 0.2 * call);
+                ok = smp->sampleUniform(s, ob::Cost(Ck));
+                if (!ok)
+                    break;
+                if (!P.space->satisfiesBounds(s))
+                    fail("C15|ordered|out-of-bounds", "successful ordered-informed sample (call " + std::to_string(call) + ") violates the space bounds");
+                double hk = P.heuristic(P.pos(s));  // the focal sum of the wrapped direct sampler (independent computation)
+                if (!(hk < Ck * (1 + 1e-9)))
+                    fail("C15|ordered|cost-not-below-bound", "call " + std::to_string(call) + ": heuristic solution cost " + vf::jnum(hk) + " >= the bound " + vf::jnum(Ck) + " of that call");
+                C = Ck;
+            }
+        }
+        else
+            ok = c.twoSided ? smp->sampleUniform(s, ob::Cost(Cmin), ob::Cost(C)) : smp->sampleUniform(s, ob::Cost(C));
     }
     catch (vc::Horizon &)
     {
@@ -364,7 +386,7 @@ static std::vector<vc::Point> runSampler(const SCfg &c, const std::map<size_t, i
             fail(K + "out-of-bounds", "successful informed sample violates the space bounds");
         Vec x = P.pos(s);
         double h = P.heuristic(x), hl = smp->heuristicSolnCost(s).value();
-        if (c.sampler != "direct")
+        if (c.sampler == "rejection")
         {
             // the rejection sampler's heuristic is the objective's own: straight-line cost in the FULL state space
             h = 1e300;
@@ -372,7 +394,7 @@ static std::vector<vc::Point> runSampler(const SCfg &c, const std::map<size_t, i
                 for (std::size_t g = 0; g < P.pdef->getGoal()->as<ob::GoalStates>()->getStateCount(); ++g)
                     h = std::min(h, P.si->distance(P.pdef->getStartState(i), s) + P.si->distance(s, P.pdef->getGoal()->as<ob::GoalStates>()->getState(g)));
         }
-        if (std::fabs(h - hl) > 1e-9 * (1 + h))
+        if (c.sampler != "ordered" && std::fabs(h - hl) > 1e-9 * (1 + h))  // (the ordered wrapper does not forward heuristicSolnCost)
             fail(K + "heuristic-value", "heuristicSolnCost() = " + vf::jnum(hl) + " but min over start/goal pairs of the focal sum is " + vf::jnum(h));
         if (!(h < C * (1 + 1e-9)))
             fail(K + "cost-not-below-bound", "successful sample has heuristic solution cost " + vf::jnum(h) + " >= the bound " + vf::jnum(C));
@@ -575,7 +597,7 @@ int main(int argc, char **argv)
     H.jobs = [](const vf::Args &a) {
         std::vector<std::string> j{"phs", "keep", "accept"};
         for (const char *sp : {"R2", "R3", "R4", "SE2", "SE3"})
-            for (const char *sm : {"direct", "rejection"})
+            for (const char *sm : {"direct", "rejection", "ordered"})
                 for (const char *sg : {"1x1", "1x2", "2x2"})
                     j.push_back(std::string(sp) + "-" + sm + "-" + sg);
         return j;
@@ -614,6 +636,8 @@ int main(int argc, char **argv)
                 {
                     if (two && c.sampler == "rejection" && factor > 50)
                         continue;
+                    if (two && c.sampler == "ordered")
+                        continue;  // the two-sided overload of the ordered sampler is documented as not implemented (throws)
                     c.factor = factor;
                     c.twoSided = two;
                     auto run = [&](const std::map<size_t, int> &dev) {
